@@ -1,7 +1,1188 @@
-//! C18 — correspondence harness (stub; see /verif/AGENT_GUIDE.md).
+//! C18 — the built-in indexer (`util/indexer`): answers == direct filter over the chain, rollback∘append == id.
+//!
+//! Drives the REAL `Indexer<RocksdbStore>` (through the add-only `ckb_indexer::verif::VerifIndexer`
+//! wrapper) and the REAL `IndexerHandle::{get_cells, get_transactions, get_cells_capacity,
+//! get_indexer_tip}` over a RocksDB directory in a tmpfs scratch directory, with synthetic blocks
+//! built with the ckb-types builders.
+//!
+//! Protocol (model side: lean/CkbVerif/Driver/C18.lean); ids are small integers:
+//!   script  = code.a.b.c          (code_hash = [code;32], hash_type = Type if code odd else Data, args = bytes a b c)
+//!   output  = lock:type|-:capacity:data|-      (data = dotted bytes)
+//!   tx      = id/in,in|-/out,out|-             (in = txid.index; 0.4294967295 = the null out-point)
+//!   config <keep_num> <prune_interval>                  -> ok        (first op of a case; opens the store)
+//!   append <number> <blockid> <tx> <tx> ..              -> tip n.h   (first tx is the cellbase)
+//!   rollback | prune | tip                              -> tip n.h | tip none
+//!   live lock|type <script>                             -> live op,op..          Indexer::get_live_cells_by_script
+//!   rawtxs lock|type <script>                           -> rawtxs id,id..        Indexer::get_transactions_by_script
+//!   cells lock|type <script> pre|exact asc|desc <limit> <fscript|-> <slr|-> <p|e|i:data|-> <dlr|-> <cap|-> <blk|->
+//!                                                       -> cells page|page..     get_cells following last_cursor until an empty page
+//!   txs lock|type <script> pre|exact asc|desc <limit> u|g <fscript|-> <blk|->
+//!                                                       -> txs page|page..       get_transactions (ungrouped / grouped)
+//!   cap lock|type <script> pre|exact <6 filter tokens>  -> cap <sum> n.h | cap none
+//!   dump                                                -> dump <n> row row ..   every stored row decoded, sorted as strings
+//! Ranges are `a:b`.
+//!
+//! Oracle (independent of the model and of the store): the harness replays the list of blocks that
+//! are currently appended into a plain live-cell map and a tx-history row list, filters them
+//! directly, and compares with what the implementation answered; after a rollback, the rows of the
+//! families OutPoint/Cell*Script/Tx*Script and the tip must equal the snapshot taken before the
+//! matching append.
 use crate::common::*;
+use ckb_indexer::verif::VerifIndexer;
+use ckb_indexer::{IndexerHandle, KeyPrefix, Value};
+use ckb_jsonrpc_types::{
+    IndexerCellType, IndexerOrder, IndexerRange, IndexerScriptType, IndexerSearchKey, IndexerSearchKeyFilter, IndexerSearchMode, IndexerTx,
+    JsonBytes,
+};
+use ckb_types::core::{BlockBuilder, BlockView, Capacity, HeaderBuilder, ScriptHashType, TransactionBuilder, TransactionView};
+use ckb_types::packed::{self, Byte32, CellInput, CellOutputBuilder, OutPoint, Script, ScriptBuilder};
+use ckb_types::prelude::*;
+use std::collections::{BTreeMap, BTreeSet, HashMap};
+use std::path::PathBuf;
 
-pub fn run(_opts: &Opts) {
-    eprintln!("C18: harness not implemented in this crate");
-    std::process::exit(2);
+const NULL_TX: u64 = 0;
+const NULL_IDX: u32 = u32::MAX;
+
+#[derive(Clone, Debug, PartialEq, Eq, PartialOrd, Ord, Hash)]
+struct ScriptSpec {
+    code: u64,
+    args: Vec<u8>,
+}
+#[derive(Clone, Debug, PartialEq, Eq)]
+struct OutSpec {
+    lock: ScriptSpec,
+    type_: Option<ScriptSpec>,
+    cap: u64,
+    data: Vec<u8>,
+}
+#[derive(Clone, Debug, PartialEq, Eq)]
+struct TxSpec {
+    id: u64,
+    inputs: Vec<(u64, u32)>,
+    outputs: Vec<OutSpec>,
+}
+#[derive(Clone, Debug)]
+struct BlockSpec {
+    number: u64,
+    id: u64,
+    txs: Vec<TxSpec>,
+}
+
+// ---------------------------------------------------------------- text forms
+fn dotted(b: &[u8]) -> String {
+    if b.is_empty() { "-".into() } else { b.iter().map(|x| x.to_string()).collect::<Vec<_>>().join(".") }
+}
+fn parse_dotted(s: &str) -> Vec<u8> {
+    if s == "-" { vec![] } else { s.split('.').map(|x| x.parse::<u8>().expect("byte")).collect() }
+}
+impl ScriptSpec {
+    fn show(&self) -> String {
+        let mut v = vec![self.code.to_string()];
+        v.extend(self.args.iter().map(|x| x.to_string()));
+        v.join(".")
+    }
+    fn parse(s: &str) -> ScriptSpec {
+        let mut it = s.split('.');
+        let code = it.next().unwrap().parse().expect("code");
+        ScriptSpec { code, args: it.map(|x| x.parse::<u8>().expect("arg byte")).collect() }
+    }
+    /// the harness's own rendering of `extract_raw_data` (code_hash ‖ hash_type ‖ args)
+    fn raw(&self) -> Vec<u8> {
+        let mut v = vec![self.code as u8; 32];
+        v.push(if self.code % 2 == 1 { 1 } else { 0 });
+        v.extend_from_slice(&self.args);
+        v
+    }
+    fn build(&self) -> Script {
+        assert!(self.code < 256);
+        ScriptBuilder::default()
+            .code_hash(Byte32::new([self.code as u8; 32]))
+            .hash_type(if self.code % 2 == 1 { ScriptHashType::Type } else { ScriptHashType::Data })
+            .args(ckb_types::bytes::Bytes::from(self.args.clone()))
+            .build()
+    }
+    fn from_real(s: &Script) -> ScriptSpec {
+        let ch = s.code_hash();
+        ScriptSpec { code: ch.as_slice()[0] as u64, args: s.args().raw_data().to_vec() }
+    }
+}
+fn show_opt_script(s: &Option<ScriptSpec>) -> String {
+    s.as_ref().map(|s| s.show()).unwrap_or_else(|| "-".into())
+}
+fn parse_opt_script(s: &str) -> Option<ScriptSpec> {
+    if s == "-" { None } else { Some(ScriptSpec::parse(s)) }
+}
+impl OutSpec {
+    fn show(&self) -> String {
+        format!("{}:{}:{}:{}", self.lock.show(), show_opt_script(&self.type_), self.cap, dotted(&self.data))
+    }
+    fn parse(s: &str) -> OutSpec {
+        let p: Vec<&str> = s.split(':').collect();
+        assert!(p.len() == 4, "output token");
+        OutSpec { lock: ScriptSpec::parse(p[0]), type_: parse_opt_script(p[1]), cap: p[2].parse().expect("cap"), data: parse_dotted(p[3]) }
+    }
+}
+impl TxSpec {
+    fn show(&self) -> String {
+        let ins = if self.inputs.is_empty() { "-".into() } else { self.inputs.iter().map(|(t, i)| format!("{}.{}", t, i)).collect::<Vec<_>>().join(",") };
+        let outs = if self.outputs.is_empty() { "-".into() } else { self.outputs.iter().map(|o| o.show()).collect::<Vec<_>>().join(",") };
+        format!("{}/{}/{}", self.id, ins, outs)
+    }
+    fn parse(s: &str) -> TxSpec {
+        let p: Vec<&str> = s.split('/').collect();
+        assert!(p.len() == 3, "tx token");
+        let inputs = if p[1] == "-" {
+            vec![]
+        } else {
+            p[1].split(',')
+                .map(|x| {
+                    let q: Vec<&str> = x.split('.').collect();
+                    assert!(q.len() == 2);
+                    (q[0].parse().expect("txid"), q[1].parse().expect("idx"))
+                })
+                .collect()
+        };
+        let outputs = if p[2] == "-" { vec![] } else { p[2].split(',').map(OutSpec::parse).collect() };
+        TxSpec { id: p[0].parse().expect("tx id"), inputs, outputs }
+    }
+}
+fn parse_range(s: &str) -> Option<(u64, u64)> {
+    if s == "-" {
+        None
+    } else {
+        let p: Vec<&str> = s.split(':').collect();
+        assert!(p.len() == 2);
+        Some((p[0].parse().expect("range"), p[1].parse().expect("range")))
+    }
+}
+fn show_range(r: &Option<(u64, u64)>) -> String {
+    r.map(|(a, b)| format!("{}:{}", a, b)).unwrap_or_else(|| "-".into())
+}
+
+#[derive(Clone, Debug, Default)]
+struct FilterSpec {
+    script: Option<ScriptSpec>,
+    slr: Option<(u64, u64)>,
+    data: Option<(char, Vec<u8>)>,
+    dlr: Option<(u64, u64)>,
+    cap: Option<(u64, u64)>,
+    blk: Option<(u64, u64)>,
+}
+impl FilterSpec {
+    fn show(&self) -> String {
+        format!(
+            "{} {} {} {} {} {}",
+            show_opt_script(&self.script),
+            show_range(&self.slr),
+            self.data.as_ref().map(|(m, d)| format!("{}:{}", m, dotted(d))).unwrap_or_else(|| "-".into()),
+            show_range(&self.dlr),
+            show_range(&self.cap),
+            show_range(&self.blk)
+        )
+    }
+    fn parse(t: &[&str]) -> FilterSpec {
+        assert!(t.len() == 6, "filter tokens");
+        let data = if t[2] == "-" {
+            None
+        } else {
+            let p: Vec<&str> = t[2].split(':').collect();
+            assert!(p.len() == 2 && ["p", "e", "i"].contains(&p[0]));
+            Some((p[0].chars().next().unwrap(), parse_dotted(p[1])))
+        };
+        FilterSpec { script: parse_opt_script(t[0]), slr: parse_range(t[1]), data, dlr: parse_range(t[3]), cap: parse_range(t[4]), blk: parse_range(t[5]) }
+    }
+    fn to_json(&self) -> Option<IndexerSearchKeyFilter> {
+        let mut f = IndexerSearchKeyFilter::default();
+        f.script = self.script.as_ref().map(|s| s.build().into());
+        f.script_len_range = self.slr.map(|(a, b)| IndexerRange::new(a, b));
+        if let Some((m, d)) = &self.data {
+            f.output_data = Some(JsonBytes::from_vec(d.clone()));
+            f.output_data_filter_mode = Some(match m {
+                'p' => IndexerSearchMode::Prefix,
+                'e' => IndexerSearchMode::Exact,
+                _ => IndexerSearchMode::Partial,
+            });
+        }
+        f.output_data_len_range = self.dlr.map(|(a, b)| IndexerRange::new(a, b));
+        f.output_capacity_range = self.cap.map(|(a, b)| IndexerRange::new(a, b));
+        f.block_range = self.blk.map(|(a, b)| IndexerRange::new(a, b));
+        Some(f)
+    }
+}
+
+// ---------------------------------------------------------------- oracle state (plain replay)
+#[derive(Clone, Debug)]
+struct OCell {
+    op: (u64, u32),
+    bn: u64,
+    txi: u32,
+    out: OutSpec,
+}
+#[derive(Clone, Debug, PartialEq, Eq, PartialOrd, Ord)]
+struct ORow {
+    lock_family: bool,
+    script: ScriptSpec,
+    bn: u64,
+    txi: u32,
+    io: u32,
+    is_input: bool,
+    tx: u64,
+}
+struct OState {
+    live: BTreeMap<(u64, u32), OCell>,
+    rows: Vec<ORow>,
+}
+fn replay_chain(chain: &[BlockSpec]) -> OState {
+    let mut st = OState { live: BTreeMap::new(), rows: vec![] };
+    for b in chain {
+        for (txi, tx) in b.txs.iter().enumerate() {
+            let txi = txi as u32;
+            if txi > 0 {
+                for (ii, inp) in tx.inputs.iter().enumerate() {
+                    if let Some(c) = st.live.remove(inp) {
+                        st.rows.push(ORow { lock_family: true, script: c.out.lock.clone(), bn: b.number, txi, io: ii as u32, is_input: true, tx: tx.id });
+                        if let Some(t) = &c.out.type_ {
+                            st.rows.push(ORow { lock_family: false, script: t.clone(), bn: b.number, txi, io: ii as u32, is_input: true, tx: tx.id });
+                        }
+                    }
+                }
+            }
+            for (oi, o) in tx.outputs.iter().enumerate() {
+                let oi = oi as u32;
+                st.live.insert((tx.id, oi), OCell { op: (tx.id, oi), bn: b.number, txi, out: o.clone() });
+                st.rows.push(ORow { lock_family: true, script: o.lock.clone(), bn: b.number, txi, io: oi, is_input: false, tx: tx.id });
+                if let Some(t) = &o.type_ {
+                    st.rows.push(ORow { lock_family: false, script: t.clone(), bn: b.number, txi, io: oi, is_input: false, tx: tx.id });
+                }
+            }
+        }
+    }
+    st
+}
+fn script_matches(q: &ScriptSpec, exact: bool, s: &ScriptSpec) -> bool {
+    if exact { q.raw() == s.raw() } else { s.raw().starts_with(&q.raw()) }
+}
+fn sort_key(s: &ScriptSpec, bn: u64, txi: u32, io: u32, tail: Option<u8>) -> Vec<u8> {
+    let mut k = s.raw();
+    k.extend_from_slice(&bn.to_be_bytes());
+    k.extend_from_slice(&txi.to_be_bytes());
+    k.extend_from_slice(&io.to_be_bytes());
+    if let Some(t) = tail {
+        k.push(t);
+    }
+    k
+}
+fn in_range(r: &Option<(u64, u64)>, x: u64) -> bool {
+    r.map(|(a, b)| a <= x && x < b).unwrap_or(true)
+}
+fn find_sub(h: &[u8], n: &[u8]) -> bool {
+    if n.is_empty() {
+        return true;
+    }
+    h.windows(n.len()).any(|w| w == n)
+}
+/// the documented meaning of the cell filters ([start, end) ranges)
+fn cell_passes(f: &FilterSpec, lock_search: bool, c: &OCell) -> bool {
+    if let Some(fs) = &f.script {
+        let other = if lock_search { c.out.type_.as_ref() } else { Some(&c.out.lock) };
+        match other {
+            None => return false,
+            Some(o) => {
+                if !o.raw().starts_with(&fs.raw()) {
+                    return false;
+                }
+            }
+        }
+    }
+    if f.slr.is_some() {
+        let other = if lock_search { c.out.type_.as_ref() } else { Some(&c.out.lock) };
+        let n = other.map(|s| s.raw().len() as u64).unwrap_or(0);
+        if !in_range(&f.slr, n) {
+            return false;
+        }
+    }
+    if let Some((m, d)) = &f.data {
+        let ok = match m {
+            'p' => c.out.data.starts_with(d),
+            'e' => &c.out.data == d,
+            _ => find_sub(&c.out.data, d),
+        };
+        if !ok {
+            return false;
+        }
+    }
+    in_range(&f.dlr, c.out.data.len() as u64) && in_range(&f.cap, c.out.cap) && in_range(&f.blk, c.bn)
+}
+fn oracle_cells(st: &OState, lock_search: bool, q: &ScriptSpec, exact: bool, f: &FilterSpec, desc: bool) -> Vec<String> {
+    let mut v: Vec<(Vec<u8>, String)> = vec![];
+    for c in st.live.values() {
+        let s = if lock_search { Some(&c.out.lock) } else { c.out.type_.as_ref() };
+        if let Some(s) = s {
+            if script_matches(q, exact, s) && cell_passes(f, lock_search, c) {
+                v.push((sort_key(s, c.bn, c.txi, c.op.1, None), format!("{}.{}@{}.{}:{}:{}", c.op.0, c.op.1, c.bn, c.txi, c.out.cap, c.out.data.len())));
+            }
+        }
+    }
+    v.sort();
+    if desc {
+        v.reverse();
+    }
+    v.into_iter().map(|x| x.1).collect()
+}
+fn oracle_tx_rows(st: &OState, lock_search: bool, q: &ScriptSpec, exact: bool, fs: &Option<ScriptSpec>, blk: &Option<(u64, u64)>, desc: bool) -> Vec<ORow> {
+    let mut v: Vec<(Vec<u8>, ORow)> = vec![];
+    for r in st.rows.iter() {
+        if r.lock_family != lock_search || !script_matches(q, exact, &r.script) || !in_range(blk, r.bn) {
+            continue;
+        }
+        if let Some(fs) = fs {
+            // the sibling script of the same cell, EXACT match (the code does a point lookup)
+            let sib = st.rows.iter().any(|o| o.lock_family != lock_search && &o.script == fs && o.bn == r.bn && o.txi == r.txi && o.io == r.io && o.is_input == r.is_input);
+            if !sib {
+                continue;
+            }
+        }
+        v.push((sort_key(&r.script, r.bn, r.txi, r.io, Some(if r.is_input { 0 } else { 1 })), r.clone()));
+    }
+    v.sort();
+    if desc {
+        v.reverse();
+    }
+    v.into_iter().map(|x| x.1).collect()
+}
+fn show_tx_row(r: &ORow) -> String {
+    format!("{}@{}.{}.{}.{}", r.tx, r.bn, r.txi, r.io, if r.is_input { "i" } else { "o" })
+}
+
+// ---------------------------------------------------------------- the simulator
+struct Sim {
+    root: PathBuf,
+    n_dirs: u64,
+    dir: Option<PathBuf>,
+    idx: Option<VerifIndexer>,
+    handle: Option<IndexerHandle>,
+    keep: u64,
+    interval: u64,
+    tx_hash: HashMap<u64, Byte32>,
+    tx_id: HashMap<Byte32, u64>,
+    tx_spec: HashMap<u64, TxSpec>,
+    block_id: HashMap<Byte32, u64>,
+    // oracle side
+    chain: Vec<BlockSpec>,
+    snapshots: Vec<(String, Vec<String>)>,
+    floor: Option<u64>,
+    oracle_valid: bool,
+    // statistics for the non-triviality rule
+    n_reorg: u64,
+    n_same_block_spend: u64,
+    n_prune_effective: u64,
+    n_queries_nonempty: u64,
+}
+
+fn pseudo_hash(tag: u8, id: u64) -> Byte32 {
+    let mut b = [tag; 32];
+    b[24..32].copy_from_slice(&id.to_be_bytes());
+    Byte32::new(b)
+}
+
+impl Sim {
+    fn new(root: PathBuf) -> Sim {
+        Sim {
+            root,
+            n_dirs: 0,
+            dir: None,
+            idx: None,
+            handle: None,
+            keep: 100,
+            interval: 1000,
+            tx_hash: HashMap::new(),
+            tx_id: HashMap::new(),
+            tx_spec: HashMap::new(),
+            block_id: HashMap::new(),
+            chain: vec![],
+            snapshots: vec![],
+            floor: None,
+            oracle_valid: true,
+            n_reorg: 0,
+            n_same_block_spend: 0,
+            n_prune_effective: 0,
+            n_queries_nonempty: 0,
+        }
+    }
+    fn close(&mut self) {
+        self.handle = None;
+        self.idx = None;
+        if let Some(d) = self.dir.take() {
+            let _ = std::fs::remove_dir_all(d);
+        }
+    }
+    fn reset(&mut self) {
+        self.close();
+        let root = self.root.clone();
+        let n = self.n_dirs;
+        *self = Sim::new(root);
+        self.n_dirs = n;
+    }
+    fn open(&mut self, keep: u64, interval: u64) {
+        self.close();
+        self.n_dirs += 1;
+        let d = self.root.join(format!("db{}", self.n_dirs));
+        std::fs::create_dir_all(&d).expect("mkdir");
+        let idx = VerifIndexer::open(&d, keep, interval);
+        self.handle = Some(idx.handle(usize::MAX));
+        self.idx = Some(idx);
+        self.dir = Some(d);
+        self.keep = keep;
+        self.interval = interval;
+        // the null out-point's "transaction"
+        self.tx_hash.insert(NULL_TX, Byte32::zero());
+        self.tx_id.insert(Byte32::zero(), NULL_TX);
+    }
+    fn idx(&self) -> &VerifIndexer {
+        self.idx.as_ref().expect("config first")
+    }
+    fn handle(&self) -> &IndexerHandle {
+        self.handle.as_ref().expect("config first")
+    }
+
+    fn hash_of_tx(&mut self, id: u64) -> Byte32 {
+        if let Some(h) = self.tx_hash.get(&id) {
+            return h.clone();
+        }
+        // a transaction the indexer has never seen
+        let h = pseudo_hash(0xEE, id);
+        self.tx_hash.insert(id, h.clone());
+        self.tx_id.insert(h.clone(), id);
+        h
+    }
+    fn build_tx(&mut self, spec: &TxSpec) -> TransactionView {
+        let mut b = TransactionBuilder::default().header_dep(pseudo_hash(0xAA, spec.id));
+        for (t, i) in &spec.inputs {
+            let op = if *t == NULL_TX && *i == NULL_IDX { OutPoint::null() } else { OutPoint::new(self.hash_of_tx(*t), *i) };
+            b = b.input(CellInput::new(op, 0));
+        }
+        for o in &spec.outputs {
+            let co = CellOutputBuilder::default().capacity(Capacity::shannons(o.cap)).lock(o.lock.build()).type_(o.type_.as_ref().map(|t| t.build())).build();
+            b = b.output(co).output_data(ckb_types::bytes::Bytes::from(o.data.clone()));
+        }
+        let tx = b.build();
+        let h = tx.hash();
+        match self.tx_hash.get(&spec.id) {
+            Some(old) if *old != h => panic!("malformed: tx id {} re-used with different content", spec.id),
+            _ => {}
+        }
+        self.tx_hash.insert(spec.id, h.clone());
+        self.tx_id.insert(h, spec.id);
+        self.tx_spec.insert(spec.id, spec.clone());
+        tx
+    }
+    fn build_block(&mut self, spec: &BlockSpec) -> BlockView {
+        let ids: Vec<u64> = spec.txs.iter().map(|t| t.id).collect();
+        let mut txs = vec![];
+        for (i, t) in spec.txs.iter().enumerate() {
+            for (it, _) in &t.inputs {
+                if ids[i..].contains(it) {
+                    panic!("malformed: input refers to a transaction at or after its own position");
+                }
+            }
+            txs.push(self.build_tx(t));
+        }
+        // the block id is part of the header so that equal bodies on two forks get distinct hashes
+        let header = HeaderBuilder::default().number(spec.number).nonce((spec.id as u128).pack()).build();
+        let block = BlockBuilder::default().header(header).transactions(txs).build();
+        self.block_id.insert(block.hash(), spec.id);
+        block
+    }
+
+    fn tip_string(&mut self, out: &mut Out) -> String {
+        let t = self.idx().tip().expect("tip");
+        let h = self.handle().get_indexer_tip().expect("rpc tip");
+        let a = t.as_ref().map(|(n, h)| (*n, h.clone()));
+        let b = h.map(|t| (u64::from(t.block_number), Byte32::from_slice(t.block_hash.as_bytes()).unwrap()));
+        if a != b {
+            out.oracle_fail("tip-rpc-neq-indexer", &format!("{:?} vs {:?}", a, b));
+        }
+        match t {
+            Some((n, h)) => format!("tip {}.{}", n, self.block_id.get(&h).map(|x| x.to_string()).unwrap_or_else(|| "?".into())),
+            None => "tip none".into(),
+        }
+    }
+    fn oracle_tip(&self) -> String {
+        match self.chain.last() {
+            Some(b) => format!("tip {}.{}", b.number, b.id),
+            None => "tip none".into(),
+        }
+    }
+
+    // ------------------------------------------------------------ dump
+    fn decode_op(&self, b: &[u8]) -> String {
+        let op = OutPoint::from_slice(b).expect("out point");
+        let idx: u32 = op.index().into();
+        format!("{}.{}", self.tx_id.get(&op.tx_hash()).map(|x| x.to_string()).unwrap_or_else(|| "?".into()), idx)
+    }
+    fn decode_cell(&self, v: &[u8]) -> String {
+        let (bn, txi, output, data) = Value::parse_cell_value(v);
+        let cap: u64 = output.capacity().into();
+        let o = OutSpec { lock: ScriptSpec::from_real(&output.lock()), type_: output.type_().to_opt().map(|t| ScriptSpec::from_real(&t)), cap, data: data.raw_data().to_vec() };
+        format!("{}.{}.{}", bn, txi, o.show())
+    }
+    fn decode_script_key(&self, k: &[u8], tail: usize) -> (ScriptSpec, u64, u32, u32) {
+        let n = k.len();
+        let raw = &k[1..n - tail];
+        let s = ScriptSpec { code: raw[0] as u64, args: raw[33..].to_vec() };
+        let t = &k[n - tail..];
+        (s, u64::from_be_bytes(t[0..8].try_into().unwrap()), u32::from_be_bytes(t[8..12].try_into().unwrap()), u32::from_be_bytes(t[12..16].try_into().unwrap()))
+    }
+    fn tx_of_val(&self, v: &[u8]) -> String {
+        self.tx_id.get(&Byte32::from_slice(v).expect("tx hash value")).map(|x| x.to_string()).unwrap_or_else(|| "?".into())
+    }
+    fn dump_rows(&self) -> Vec<String> {
+        let mut rows = vec![];
+        for (k, v) in self.idx().dump() {
+            let r = match k[0] {
+                0 => format!("O/{}={}", self.decode_op(&k[1..]), self.decode_cell(&v)),
+                32 => format!("C/{}/{}={}", u64::from_be_bytes(k[1..9].try_into().unwrap()), self.decode_op(&k[9..]), self.decode_cell(&v)),
+                64 | 96 => {
+                    let (s, bn, txi, io) = self.decode_script_key(&k, 16);
+                    format!("{}/{}/{}/{}/{}={}", if k[0] == 64 { "L" } else { "T" }, s.show(), bn, txi, io, self.tx_of_val(&v))
+                }
+                128 | 160 => {
+                    let (s, bn, txi, io) = self.decode_script_key(&k, 17);
+                    format!("{}/{}/{}/{}/{}/{}={}", if k[0] == 128 { "l" } else { "t" }, s.show(), bn, txi, io, if k[k.len() - 1] == 0 { "i" } else { "o" }, self.tx_of_val(&v))
+                }
+                192 => {
+                    let ins: Vec<String> = v.chunks_exact(OutPoint::TOTAL_SIZE).map(|c| self.decode_op(c)).collect();
+                    format!("H/{}={}", self.tx_of_val(&k[1..]), if ins.is_empty() { "-".into() } else { ins.join(",") })
+                }
+                224 => {
+                    let filtered = k.len() == 42;
+                    let txs: Vec<String> = Value::parse_transactions_value(&v, filtered)
+                        .into_iter()
+                        .map(|(h, n, i)| format!("{}.{}.{}", self.tx_id.get(&h).map(|x| x.to_string()).unwrap_or_else(|| "?".into()), n, i.map(|i| i.to_string()).unwrap_or_else(|| "-".into())))
+                        .collect();
+                    let bh = Byte32::from_slice(&k[9..41]).unwrap();
+                    format!(
+                        "B/{}/{}/{}={}",
+                        u64::from_be_bytes(k[1..9].try_into().unwrap()),
+                        self.block_id.get(&bh).map(|x| x.to_string()).unwrap_or_else(|| "?".into()),
+                        if filtered { "f" } else { "u" },
+                        if txs.is_empty() { "-".into() } else { txs.join(",") }
+                    )
+                }
+                x => format!("?{}", x),
+            };
+            rows.push(r);
+        }
+        rows.sort();
+        rows
+    }
+    /// the rows that carry the answers: OutPoint, Cell*Script, Tx*Script
+    fn answer_rows(&self) -> Vec<String> {
+        self.dump_rows().into_iter().filter(|r| ["O/", "L/", "T/", "l/", "t/"].iter().any(|p| r.starts_with(p))).collect()
+    }
+    /// what those rows must be, computed from the replayed chain only
+    fn oracle_answer_rows(&self) -> Vec<String> {
+        let st = replay_chain(&self.chain);
+        let mut rows = vec![];
+        for c in st.live.values() {
+            rows.push(format!("O/{}.{}={}.{}.{}", c.op.0, c.op.1, c.bn, c.txi, c.out.show()));
+            rows.push(format!("L/{}/{}/{}/{}={}", c.out.lock.show(), c.bn, c.txi, c.op.1, c.op.0));
+            if let Some(t) = &c.out.type_ {
+                rows.push(format!("T/{}/{}/{}/{}={}", t.show(), c.bn, c.txi, c.op.1, c.op.0));
+            }
+        }
+        for r in st.rows.iter() {
+            rows.push(format!("{}/{}/{}/{}/{}/{}={}", if r.lock_family { "l" } else { "t" }, r.script.show(), r.bn, r.txi, r.io, if r.is_input { "i" } else { "o" }, r.tx));
+        }
+        rows.sort();
+        rows
+    }
+    fn check_rows(&mut self, out: &mut Out, when: &str) {
+        if !self.oracle_valid {
+            return;
+        }
+        let a = self.answer_rows();
+        let b = self.oracle_answer_rows();
+        if a != b {
+            let da: Vec<&String> = a.iter().filter(|x| !b.contains(x)).take(4).collect();
+            let db: Vec<&String> = b.iter().filter(|x| !a.contains(x)).take(4).collect();
+            out.oracle_fail("rows-neq-chain-filter", &format!("{} extra={:?} missing={:?}", when, da, db));
+        }
+    }
+
+    // ------------------------------------------------------------ RPC
+    fn search_key(&self, lock: bool, q: &ScriptSpec, exact: bool, filter: Option<IndexerSearchKeyFilter>, group: bool) -> IndexerSearchKey {
+        IndexerSearchKey {
+            script: q.build().into(),
+            script_type: if lock { IndexerScriptType::Lock } else { IndexerScriptType::Type },
+            script_search_mode: Some(if exact { IndexerSearchMode::Exact } else { IndexerSearchMode::Prefix }),
+            filter,
+            with_data: Some(true),
+            group_by_transaction: Some(group),
+        }
+    }
+
+    fn exec(&mut self, out: &mut Out, line: &str) {
+        let t: Vec<&str> = line.split_whitespace().collect();
+        match t[0] {
+            "config" => {
+                let keep: u64 = t[1].parse().expect("keep");
+                let interval: u64 = t[2].parse().expect("interval");
+                assert!(interval >= 1, "malformed: prune_interval 0");
+                self.open(keep, interval);
+                out.op(line, "ok");
+            }
+            "append" => {
+                let spec = BlockSpec { number: t[1].parse().expect("number"), id: t[2].parse().expect("block id"), txs: t[3..].iter().map(|x| TxSpec::parse(x)).collect() };
+                let expect_no = self.chain.last().map(|b| b.number + 1);
+                if let Some(n) = expect_no {
+                    assert!(spec.number == n, "malformed: append must extend the tip by one");
+                }
+                let block = self.build_block(&spec);
+                if self.oracle_valid {
+                    let pre = self.answer_rows();
+                    let pre_tip = self.tip_string(out);
+                    self.snapshots.push((pre_tip, pre));
+                } else {
+                    self.snapshots.push((String::new(), vec![]));
+                }
+                // same-block spend statistics
+                let ids: BTreeSet<u64> = spec.txs.iter().map(|t| t.id).collect();
+                if spec.txs.iter().any(|t| t.inputs.iter().any(|(i, _)| ids.contains(i))) {
+                    self.n_same_block_spend += 1;
+                    out.count("append-with-same-block-spend");
+                }
+                let had_consumed = self.idx().dump().iter().filter(|(k, _)| k[0] == 32).count();
+                self.idx().append(&block).expect("append");
+                let has_consumed_old = self.idx().dump().iter().filter(|(k, _)| k[0] == 32 && u64::from_be_bytes(k[1..9].try_into().unwrap()) < spec.number).count();
+                if has_consumed_old < had_consumed {
+                    self.n_prune_effective += 1;
+                    out.count("append-pruned-rows");
+                }
+                self.chain.push(spec.clone());
+                self.note_prune_floor_after_append(&spec);
+                let ans = self.tip_string(out);
+                if self.oracle_valid && ans != self.oracle_tip() {
+                    out.oracle_fail("tip-neq-chain-tip", &format!("{} vs {}", ans, self.oracle_tip()));
+                }
+                out.count("append");
+                out.op(line, &ans);
+                self.check_rows(out, "after-append");
+            }
+            "rollback" => {
+                let tip_before = self.chain.last().map(|b| b.number);
+                let within = match (tip_before, self.floor) {
+                    (None, _) => true,
+                    (Some(n), Some(f)) => n > f,
+                    (Some(_), None) => true,
+                };
+                self.idx().rollback().expect("rollback");
+                let snap = self.snapshots.pop();
+                self.chain.pop();
+                if !within {
+                    self.oracle_valid = false;
+                    out.count("rollback-beyond-retention");
+                }
+                let ans = self.tip_string(out);
+                if self.oracle_valid {
+                    if let Some((tip0, rows0)) = snap {
+                        let rows1 = self.answer_rows();
+                        if tip0 != ans {
+                            out.oracle_fail("rollback-tip-not-restored", &format!("{} vs before-append {}", ans, tip0));
+                        }
+                        if rows0 != rows1 {
+                            let da: Vec<&String> = rows1.iter().filter(|x| !rows0.contains(x)).take(4).collect();
+                            let db: Vec<&String> = rows0.iter().filter(|x| !rows1.contains(x)).take(4).collect();
+                            out.oracle_fail("rollback-answers-not-restored", &format!("extra={:?} missing={:?}", da, db));
+                        }
+                    }
+                    if ans != self.oracle_tip() {
+                        out.oracle_fail("tip-neq-chain-tip", &format!("{} vs {}", ans, self.oracle_tip()));
+                    }
+                }
+                out.count("rollback");
+                out.op(line, &ans);
+                self.check_rows(out, "after-rollback");
+            }
+            "prune" => {
+                if self.idx().tip().expect("tip").is_some() {
+                    self.idx().prune().expect("prune");
+                    if let Some(b) = self.chain.last() {
+                        if b.number > self.keep + 1 {
+                            let f = b.number - self.keep - 1;
+                            self.floor = Some(self.floor.map(|x| x.max(f)).unwrap_or(f));
+                        }
+                    }
+                }
+                let ans = self.tip_string(out);
+                out.count("prune");
+                out.op(line, &ans);
+                self.check_rows(out, "after-prune");
+            }
+            "tip" => {
+                let ans = self.tip_string(out);
+                if self.oracle_valid && ans != self.oracle_tip() {
+                    out.oracle_fail("tip-neq-chain-tip", &format!("{} vs {}", ans, self.oracle_tip()));
+                }
+                out.op(line, &ans);
+            }
+            "live" | "rawtxs" => {
+                let lock = t[1] == "lock";
+                let q = ScriptSpec::parse(t[2]);
+                let st = replay_chain(&self.chain);
+                if t[0] == "live" {
+                    let r = self.idx().live_cells_by_script(&q.build(), if lock { KeyPrefix::CellLockScript } else { KeyPrefix::CellTypeScript }).expect("live");
+                    let v: Vec<String> = r.iter().map(|op| self.decode_op(op.as_slice())).collect();
+                    let want: Vec<String> = oracle_cells(&st, lock, &q, false, &FilterSpec::default(), false).iter().map(|s| s.split('@').next().unwrap().to_string()).collect();
+                    if self.oracle_valid && v != want {
+                        out.oracle_fail(if overmatch_possible(&st, lock, &q) { "prefix-search-overmatch" } else { "live-neq-chain-filter" }, &format!("{} got={:?} want={:?}", line, v, want));
+                    }
+                    if !v.is_empty() {
+                        self.n_queries_nonempty += 1;
+                    }
+                    out.count("live");
+                    out.op(line, &format!("live {}", if v.is_empty() { "-".into() } else { v.join(",") }));
+                } else {
+                    let r = self.idx().transactions_by_script(&q.build(), if lock { KeyPrefix::TxLockScript } else { KeyPrefix::TxTypeScript }).expect("rawtxs");
+                    let v: Vec<String> = r.iter().map(|h| self.tx_id.get(h).map(|x| x.to_string()).unwrap_or_else(|| "?".into())).collect();
+                    let want: Vec<String> = oracle_tx_rows(&st, lock, &q, false, &None, &None, false).iter().map(|r| r.tx.to_string()).collect();
+                    if self.oracle_valid && v != want {
+                        out.oracle_fail(if overmatch_possible(&st, lock, &q) { "prefix-search-overmatch" } else { "rawtxs-neq-chain-filter" }, &format!("{} got={:?} want={:?}", line, v, want));
+                    }
+                    out.count("rawtxs");
+                    out.op(line, &format!("rawtxs {}", if v.is_empty() { "-".into() } else { v.join(",") }));
+                }
+            }
+            "cells" => {
+                let lock = t[1] == "lock";
+                let q = ScriptSpec::parse(t[2]);
+                let exact = t[3] == "exact";
+                let desc = t[4] == "desc";
+                let limit: u32 = t[5].parse().expect("limit");
+                assert!(limit >= 1, "malformed: limit 0");
+                let f = FilterSpec::parse(&t[6..12]);
+                let mut pages: Vec<Vec<String>> = vec![];
+                let mut cursor: Option<JsonBytes> = None;
+                loop {
+                    let key = self.search_key(lock, &q, exact, f.to_json(), false);
+                    let r = self.handle().get_cells(key, if desc { IndexerOrder::Desc } else { IndexerOrder::Asc }, limit.into(), cursor.clone()).expect("get_cells");
+                    let page: Vec<String> = r
+                        .objects
+                        .iter()
+                        .map(|c| {
+                            let op: packed::OutPoint = c.out_point.clone().into();
+                            let cap: u64 = c.output.capacity.into();
+                            format!("{}@{}.{}:{}:{}", self.decode_op(op.as_slice()), u64::from(c.block_number), u32::from(c.tx_index), cap, c.output_data.as_ref().map(|d| d.len()).unwrap_or(0))
+                        })
+                        .collect();
+                    let empty = page.is_empty();
+                    pages.push(page);
+                    if empty || pages.len() > 10_000 {
+                        break;
+                    }
+                    cursor = Some(r.last_cursor);
+                }
+                let st = replay_chain(&self.chain);
+                let want = oracle_cells(&st, lock, &q, exact, &f, desc);
+                let got: Vec<String> = pages.iter().flatten().cloned().collect();
+                if self.oracle_valid {
+                    if got != want {
+                        out.oracle_fail(if !exact && overmatch_possible(&st, lock, &q) { "prefix-search-overmatch" } else { "cells-neq-chain-filter" }, &format!("{} got={:?} want={:?}", line, got, want));
+                    }
+                    let n = pages.len();
+                    if pages.iter().enumerate().any(|(i, p)| if i + 1 < n { p.len() != limit as usize } else { !p.is_empty() }) {
+                        out.oracle_fail("cells-pagination", &format!("{} pages={:?}", line, pages.iter().map(|p| p.len()).collect::<Vec<_>>()));
+                    }
+                }
+                if !got.is_empty() {
+                    self.n_queries_nonempty += 1;
+                }
+                out.count(if exact { "cells-exact" } else { "cells-prefix" });
+                if pages.len() > 2 {
+                    out.count("cells-multi-page");
+                }
+                out.op(line, &format!("cells {}", show_pages(&pages)));
+            }
+            "txs" => {
+                let lock = t[1] == "lock";
+                let q = ScriptSpec::parse(t[2]);
+                let exact = t[3] == "exact";
+                let desc = t[4] == "desc";
+                let limit: u32 = t[5].parse().expect("limit");
+                assert!(limit >= 1, "malformed: limit 0");
+                let group = t[6] == "g";
+                let fs = parse_opt_script(t[7]);
+                let blk = parse_range(t[8]);
+                let fspec = FilterSpec { script: fs.clone(), blk, ..Default::default() };
+                let mut pages: Vec<Vec<String>> = vec![];
+                let mut flat: Vec<String> = vec![];
+                let mut cursor: Option<JsonBytes> = None;
+                loop {
+                    let key = self.search_key(lock, &q, exact, if fs.is_some() || blk.is_some() { fspec.to_json() } else { None }, group);
+                    let r = self.handle().get_transactions(key, if desc { IndexerOrder::Desc } else { IndexerOrder::Asc }, limit.into(), cursor.clone()).expect("get_transactions");
+                    let mut page = vec![];
+                    for o in r.objects.iter() {
+                        match o {
+                            IndexerTx::Ungrouped(x) => {
+                                let id = self.tx_id.get(&Byte32::from_slice(x.tx_hash.as_bytes()).unwrap()).map(|x| x.to_string()).unwrap_or_else(|| "?".into());
+                                let s = format!("{}@{}.{}.{}.{}", id, u64::from(x.block_number), u32::from(x.tx_index), u32::from(x.io_index), if matches!(x.io_type, IndexerCellType::Input) { "i" } else { "o" });
+                                flat.push(s.clone());
+                                page.push(s);
+                            }
+                            IndexerTx::Grouped(x) => {
+                                let id = self.tx_id.get(&Byte32::from_slice(x.tx_hash.as_bytes()).unwrap()).map(|x| x.to_string()).unwrap_or_else(|| "?".into());
+                                let mut cells = vec![];
+                                for (ty, i) in x.cells.iter() {
+                                    let io = if matches!(ty, IndexerCellType::Input) { "i" } else { "o" };
+                                    cells.push(format!("{}{}", io, u32::from(*i)));
+                                    flat.push(format!("{}@{}.{}.{}.{}", id, u64::from(x.block_number), u32::from(x.tx_index), u32::from(*i), io));
+                                }
+                                page.push(format!("{}@{}.{}[{}]", id, u64::from(x.block_number), u32::from(x.tx_index), cells.join(";")));
+                            }
+                        }
+                    }
+                    let empty = page.is_empty();
+                    pages.push(page);
+                    if empty || pages.len() > 10_000 {
+                        break;
+                    }
+                    cursor = Some(r.last_cursor);
+                }
+                let st = replay_chain(&self.chain);
+                let want: Vec<String> = oracle_tx_rows(&st, lock, &q, exact, &fs, &blk, desc).iter().map(show_tx_row).collect();
+                if self.oracle_valid {
+                    if flat != want {
+                        out.oracle_fail(if !exact && overmatch_possible(&st, lock, &q) { "prefix-search-overmatch" } else { "txs-neq-chain-filter" }, &format!("{} got={:?} want={:?}", line, flat, want));
+                    }
+                    let n = pages.len();
+                    if pages.iter().enumerate().any(|(i, p)| if i + 1 < n { p.len() != limit as usize } else { !p.is_empty() }) {
+                        out.oracle_fail("txs-pagination", &format!("{} pages={:?}", line, pages.iter().map(|p| p.len()).collect::<Vec<_>>()));
+                    }
+                }
+                if !flat.is_empty() {
+                    self.n_queries_nonempty += 1;
+                }
+                out.count(if group { "txs-grouped" } else { "txs-ungrouped" });
+                out.op(line, &format!("txs {}", show_pages(&pages)));
+            }
+            "cap" => {
+                let lock = t[1] == "lock";
+                let q = ScriptSpec::parse(t[2]);
+                let exact = t[3] == "exact";
+                let f = FilterSpec::parse(&t[4..10]);
+                let key = self.search_key(lock, &q, exact, f.to_json(), false);
+                let r = self.handle().get_cells_capacity(key).expect("get_cells_capacity");
+                let ans = match r {
+                    None => "cap none".to_string(),
+                    Some(c) => {
+                        let bh = Byte32::from_slice(c.block_hash.as_bytes()).unwrap();
+                        format!("cap {} {}.{}", u64::from(c.capacity), u64::from(c.block_number), self.block_id.get(&bh).map(|x| x.to_string()).unwrap_or_else(|| "?".into()))
+                    }
+                };
+                if self.oracle_valid {
+                    let st = replay_chain(&self.chain);
+                    let sum: u64 = st
+                        .live
+                        .values()
+                        .filter(|c| {
+                            let s = if lock { Some(&c.out.lock) } else { c.out.type_.as_ref() };
+                            s.map(|s| script_matches(&q, exact, s)).unwrap_or(false) && cell_passes(&f, lock, c)
+                        })
+                        .map(|c| c.out.cap)
+                        .sum();
+                    let want = match self.chain.last() {
+                        None => "cap none".to_string(),
+                        Some(b) => format!("cap {} {}.{}", sum, b.number, b.id),
+                    };
+                    if ans != want {
+                        let class = if !exact && overmatch_possible(&st, lock, &q) {
+                            "prefix-search-overmatch"
+                        } else if f.slr.is_some() {
+                            "capacity-script-len-range-end-inclusive"
+                        } else {
+                            "capacity-neq-chain-filter"
+                        };
+                        out.oracle_fail(class, &format!("{} got={} want={}", line, ans, want));
+                    }
+                }
+                out.count("cap");
+                out.op(line, &ans);
+            }
+            "dump" => {
+                let rows = self.dump_rows();
+                out.count("dump");
+                out.op(line, &format!("dump {} {}", rows.len(), if rows.is_empty() { "-".into() } else { rows.join(" ") }));
+                self.check_rows(out, "dump");
+            }
+            other => panic!("malformed op {}", other),
+        }
+    }
+
+    fn note_prune_floor_after_append(&mut self, spec: &BlockSpec) {
+        // `append` prunes when number % interval == 0 (the harness knows the interval from `config`)
+        if self.may_prune(spec.number) && spec.number > self.keep + 1 {
+            let f = spec.number - self.keep - 1;
+            self.floor = Some(self.floor.map(|x| x.max(f)).unwrap_or(f));
+        }
+    }
+    fn may_prune(&self, number: u64) -> bool {
+        number % self.interval == 0
+    }
+}
+
+/// true iff some stored script of the searched family is a strict prefix (in raw bytes) of the
+/// query script: the only situation in which `key.starts_with(prefix ‖ raw(query))` can be true for
+/// a row of a script that does NOT start with the query (the query's tail then runs into the
+/// big-endian block number / tx index bytes of the key).
+fn overmatch_possible(st: &OState, lock: bool, q: &ScriptSpec) -> bool {
+    let qr = q.raw();
+    st.rows.iter().any(|r| r.lock_family == lock && r.script.raw().len() < qr.len() && qr.starts_with(&r.script.raw()))
+}
+
+fn show_pages(p: &[Vec<String>]) -> String {
+    p.iter().map(|x| if x.is_empty() { "-".to_string() } else { x.join(",") }).collect::<Vec<_>>().join("|")
+}
+
+// ---------------------------------------------------------------- generator
+struct Gen {
+    next_tx: u64,
+    next_block: u64,
+    orphans: Vec<TxSpec>,
+    scripts: Vec<ScriptSpec>,
+    probe_known: bool,
+}
+
+fn script_pool(rng: &mut Rng, probe_known: bool) -> Vec<ScriptSpec> {
+    // a handful of scripts, several sharing an args prefix, two code hashes
+    let mut args: Vec<Vec<u8>> = vec![vec![], vec![1], vec![1, 2], vec![1, 2, 3], vec![1, 255], vec![2], vec![255], vec![255, 255]];
+    if probe_known {
+        args.push(vec![1, 0]);
+        args.push(vec![0]);
+        args.push(vec![1, 0, 0]);
+    }
+    let n = rng.range(2, 6) as usize;
+    let mut v = vec![];
+    while v.len() < n {
+        let s = ScriptSpec { code: rng.range(1, 3), args: rng.pick(&args).clone() };
+        if !v.contains(&s) {
+            v.push(s);
+        }
+    }
+    v
+}
+
+impl Gen {
+    fn rand_output(&self, rng: &mut Rng) -> OutSpec {
+        let lock = rng.pick(&self.scripts).clone();
+        let type_ = if rng.chance(1, 2) { Some(rng.pick(&self.scripts).clone()) } else { None };
+        let data: Vec<u8> = match rng.below(4) {
+            0 => vec![],
+            1 => vec![7],
+            2 => vec![7, 8],
+            _ => vec![9, 7, 8, 1],
+        };
+        OutSpec { lock, type_, cap: *rng.pick(&[0u64, 1, 100, 100, 250, 1000]), data }
+    }
+    fn gen_block(&mut self, rng: &mut Rng, sim: &Sim) -> BlockSpec {
+        let number = sim.chain.last().map(|b| b.number + 1).unwrap_or(0);
+        let st = replay_chain(&sim.chain);
+        let mut avail: Vec<(u64, u32)> = st.live.keys().cloned().collect();
+        let on_chain: BTreeSet<u64> = sim.chain.iter().flat_map(|b| b.txs.iter().map(|t| t.id)).collect();
+        let mut txs = vec![];
+        // cellbase: sometimes without outputs (as in the first blocks of a real chain)
+        let n_cb_out = if rng.chance(1, 4) { 0 } else { rng.range(1, 2) };
+        let cb = TxSpec { id: self.next_tx, inputs: vec![(NULL_TX, NULL_IDX)], outputs: (0..n_cb_out).map(|_| self.rand_output(rng)).collect() };
+        self.next_tx += 1;
+        for oi in 0..cb.outputs.len() {
+            avail.push((cb.id, oi as u32));
+        }
+        txs.push(cb);
+        let n_tx = rng.below(5);
+        for _ in 0..n_tx {
+            // re-include a transaction of an abandoned branch when its inputs are all live
+            if !self.orphans.is_empty() && rng.chance(1, 3) {
+                let k = rng.below(self.orphans.len() as u64) as usize;
+                let o = self.orphans[k].clone();
+                if !on_chain.contains(&o.id) && !txs.iter().any(|t: &TxSpec| t.id == o.id) && !o.inputs.is_empty() && o.inputs.iter().all(|i| avail.contains(i)) {
+                    avail.retain(|a| !o.inputs.contains(a));
+                    for oi in 0..o.outputs.len() {
+                        avail.push((o.id, oi as u32));
+                    }
+                    txs.push(o);
+                    self.orphans.remove(k);
+                    continue;
+                }
+            }
+            let lo = if rng.chance(1, 8) { 0 } else { 1 };
+            let n_in = if avail.is_empty() { 0 } else { rng.range(lo, 3.min(avail.len() as u64)) };
+            let mut inputs = vec![];
+            for _ in 0..n_in {
+                // bias to the most recently created cells (same-block spends)
+                let k = if rng.chance(1, 2) { avail.len() - 1 - rng.below(avail.len().min(3) as u64) as usize } else { rng.below(avail.len() as u64) as usize };
+                inputs.push(avail.remove(k));
+            }
+            if rng.chance(1, 25) {
+                // an input the indexer cannot resolve (never seen transaction)
+                inputs.push((1_000_000 + self.next_tx, 0));
+            }
+            let lo_out = if inputs.is_empty() { 1 } else { 0 };
+            let n_out = rng.range(lo_out, 3);
+            let tx = TxSpec { id: self.next_tx, inputs, outputs: (0..n_out).map(|_| self.rand_output(rng)).collect() };
+            self.next_tx += 1;
+            for oi in 0..tx.outputs.len() {
+                avail.push((tx.id, oi as u32));
+            }
+            txs.push(tx);
+        }
+        let id = self.next_block;
+        self.next_block += 1;
+        BlockSpec { number, id, txs }
+    }
+    fn rand_query_script(&self, rng: &mut Rng) -> ScriptSpec {
+        let mut s = rng.pick(&self.scripts).clone();
+        match rng.below(6) {
+            0 => {
+                s.args.truncate(rng.below(s.args.len() as u64 + 1) as usize);
+            }
+            1 => {
+                s.args.push(*rng.pick(&[1u8, 2, 255]));
+            }
+            2 if self.probe_known => {
+                s.args.push(0);
+            }
+            3 => {
+                s.code = rng.range(1, 4);
+            }
+            _ => {}
+        }
+        s
+    }
+    fn rand_range(&self, rng: &mut Rng, vals: &[u64]) -> Option<(u64, u64)> {
+        let a = *rng.pick(vals);
+        let b = *rng.pick(vals);
+        Some((a.min(b), a.max(b) + rng.below(2)))
+    }
+    fn rand_filter(&self, rng: &mut Rng, tip: u64, for_capacity: bool) -> FilterSpec {
+        let mut f = FilterSpec::default();
+        if rng.chance(1, 4) {
+            f.script = Some(self.rand_query_script(rng));
+        }
+        // get_cells_capacity treats the END of script_len_range as inclusive (see report): only probed on request
+        if rng.chance(1, 5) && (!for_capacity || self.probe_known) {
+            f.slr = self.rand_range(rng, &[0, 33, 34, 35, 36, 37]);
+        }
+        if rng.chance(1, 4) {
+            let d: Vec<u8> = match rng.below(5) {
+                0 => vec![],
+                1 => vec![7],
+                2 => vec![7, 8],
+                3 => vec![8],
+                _ => vec![9, 7, 8, 1],
+            };
+            f.data = Some((*rng.pick(&['p', 'e', 'i']), d));
+        }
+        if rng.chance(1, 5) {
+            f.dlr = self.rand_range(rng, &[0, 1, 2, 4, 5]);
+        }
+        if rng.chance(1, 4) {
+            f.cap = self.rand_range(rng, &[0, 1, 100, 101, 250, 1000, 1001]);
+        }
+        if rng.chance(1, 4) {
+            f.blk = self.rand_range(rng, &[0, 1, tip / 2, tip, tip + 1]);
+        }
+        f
+    }
+    fn rand_query(&self, rng: &mut Rng, sim: &Sim) -> String {
+        let kind = if rng.chance(3, 5) { "lock" } else { "type" };
+        let q = self.rand_query_script(rng).show();
+        let mode = if rng.chance(1, 2) { "pre" } else { "exact" };
+        let order = if rng.chance(1, 2) { "asc" } else { "desc" };
+        let limit = *rng.pick(&[1u32, 1, 2, 3, 5, 100]);
+        let tip = sim.chain.last().map(|b| b.number).unwrap_or(0);
+        match rng.below(10) {
+            0 => format!("live {} {}", kind, q),
+            1 => format!("rawtxs {} {}", kind, q),
+            2..=4 => format!("cells {} {} {} {} {} {}", kind, q, mode, order, limit, self.rand_filter(rng, tip, false).show()),
+            5..=7 => {
+                let fs = if rng.chance(1, 3) { Some(rng.pick(&self.scripts).clone()) } else { None };
+                let blk = if rng.chance(1, 3) { self.rand_range(rng, &[0, 1, tip / 2, tip, tip + 1]) } else { None };
+                format!("txs {} {} {} {} {} {} {} {}", kind, q, mode, order, limit, if rng.chance(1, 2) { "g" } else { "u" }, show_opt_script(&fs), show_range(&blk))
+            }
+            8 => format!("cap {} {} {} {}", kind, q, mode, self.rand_filter(rng, tip, true).show()),
+            _ => "tip".to_string(),
+        }
+    }
+}
+
+fn gen_case(out: &mut Out, rng: &mut Rng, sim: &mut Sim, steps: usize, probe_known: bool) {
+    sim.reset();
+    let keep = *rng.pick(&[0u64, 1, 2, 3, 5, 100]);
+    let interval = *rng.pick(&[1u64, 1, 2, 3, 1000]);
+    out.begin_case(&format!("keep={} interval={}", keep, interval));
+    sim.exec(out, &format!("config {} {}", keep, interval));
+    let mut g = Gen { next_tx: 1, next_block: 1, orphans: vec![], scripts: script_pool(rng, probe_known), probe_known };
+    for _ in 0..steps {
+        let r = rng.below(100);
+        if r < 50 || sim.chain.is_empty() {
+            let b = g.gen_block(rng, sim);
+            let line = format!("append {} {} {}", b.number, b.id, b.txs.iter().map(|t| t.show()).collect::<Vec<_>>().join(" "));
+            sim.exec(out, &line);
+        } else if r < 68 {
+            // reorg: roll back k blocks (inside the retention), the loop continues with other blocks
+            let max_k = match sim.floor {
+                Some(f) => sim.chain.last().map(|b| b.number.saturating_sub(f)).unwrap_or(0),
+                None => sim.chain.len() as u64,
+            };
+            let k = rng.range(1, 4).min(max_k).min(sim.chain.len() as u64);
+            if k > 0 {
+                sim.n_reorg += 1;
+            }
+            for _ in 0..k {
+                if let Some(b) = sim.chain.last() {
+                    for t in b.txs.iter().skip(1) {
+                        g.orphans.push(t.clone());
+                    }
+                }
+                sim.exec(out, "rollback");
+            }
+        } else if r < 72 {
+            sim.exec(out, "prune");
+        } else if r < 78 {
+            sim.exec(out, "dump");
+        } else {
+            let line = g.rand_query(rng, sim);
+            sim.exec(out, &line);
+        }
+    }
+    sim.exec(out, "dump");
+    if sim.n_reorg > 0 && sim.n_same_block_spend > 0 && sim.n_queries_nonempty > 0 {
+        out.nontrivial(format!("k{}i{}r{}s{}p{}b{}", keep, interval, sim.n_reorg.min(5), sim.n_same_block_spend.min(5), sim.n_prune_effective.min(3), sim.chain.len()));
+    }
+}
+
+pub fn run(opts: &Opts) {
+    let mut out = Out::new(&opts.out);
+    let mut rng = Rng::new(opts.seed);
+    let root = crate::node::scratch_dir(&opts.out, "c18");
+    let probe_known = opts.extra.iter().any(|s| s == "probe-known");
+    let mut sim = Sim::new(root.clone());
+    if let Some(p) = &opts.replay {
+        for line in read_replay_ops(p) {
+            let t: Vec<&str> = line.split_whitespace().collect();
+            if t[0] == "case" {
+                sim.reset();
+                out.begin_case(&t[2..].join(" "));
+            } else {
+                sim.exec(&mut out, &line);
+            }
+        }
+    } else {
+        let (cases, steps) = if opts.thorough() { (700 * opts.scale, 60) } else { (90 * opts.scale, 45) };
+        for _ in 0..cases {
+            gen_case(&mut out, &mut rng, &mut sim, steps as usize, probe_known);
+        }
+    }
+    sim.close();
+    let _ = std::fs::remove_dir_all(&root);
+    out.finish("a case is non-trivial when it contains at least one reorg (rollback of >=1 block followed by other blocks), at least one block in which a cell is created and spent, and at least one query with a non-empty answer; fingerprint = keep/interval/reorgs/same-block-spend blocks/effective prunes/final chain length");
 }
